@@ -62,7 +62,7 @@ func (s innerSpec) build() (proto.Message, error) {
 	case "duration":
 		return &durationpb.Duration{Seconds: s.I % maxDurationSeconds, Nanos: int32(abs(int64(s.N))%1000000000) * sign32(s.I%maxDurationSeconds)}, nil
 	case "timestamp":
-		return &timestamppb.Timestamp{Seconds: s.I % maxTimestampSeconds, Nanos: int32(abs(int64(s.N)) % 1000000000)}, nil
+		return &timestamppb.Timestamp{Seconds: minTimestampSeconds + abs(s.I)%(maxTimestampSeconds-minTimestampSeconds+1), Nanos: int32(abs(int64(s.N)) % 1000000000)}, nil
 	case "int64value":
 		return wrapperspb.Int64(s.I), nil
 	case "stringvalue":
@@ -361,6 +361,6 @@ func TestAny(t *testing.T) {
 			}
 			return out
 		},
-		Quick: 15000, Thorough: 250000,
+		Quick: 40000, Thorough: 250000,
 	})
 }
